@@ -136,6 +136,18 @@ def run(tier, seed, replay=None):
                 add("s%04d" % k_, {"definitions": {"T": t}}, "synth", ns, settings={"struct_builder": bool(k_ % 2)})
                 k_ += 1
 
+    # variant names typify derives by stripping a shared prefix from definition names / titles: the remainder may be a keyword
+    for j, kw in enumerate(["Self", "self", "Type", "type", "Match", "Crate", "Super", "Fn", "Mod", "Box", "Option", "Vec", "1st", ""]):
+        for via in ("ref", "title"):
+            a_, b_ = "Link" + (kw[:1].upper() + kw[1:] if kw else ""), "LinkRelated"
+            if via == "ref":
+                defs_ = {a_ or "Link0": {"type": "object", "properties": {"href": {"type": "string"}}, "required": ["href"]},
+                         b_: {"type": "object", "properties": {"id": {"type": "integer"}}, "required": ["id"]},
+                         "Link": {"oneOf": [{"$ref": "#/definitions/" + (a_ or "Link0")}, {"$ref": "#/definitions/" + b_}]}}
+            else:
+                defs_ = {"Link": {"oneOf": [{"title": "target " + kw, "type": "object", "properties": {"href": {"type": "string"}}, "required": ["href"]},
+                                            {"title": "target other", "type": "object", "properties": {"id": {"type": "integer"}}, "required": ["id"]}]}}
+            add("u%02d_%s" % (j, via), {"definitions": defs_}, "union_prefix", [kw])
     for bi in range(0, len(allnames), B):
         batch = allnames[bi:bi + B]
         add("p%05d" % (bi // B), doc_prop(batch), "prop", batch)
@@ -222,6 +234,17 @@ def run(tier, seed, replay=None):
                     break
                 if not nm.isidentifier() or not nm.isascii():
                     rep.nontrivial.add((m["kind"], nm))
+        elif m["kind"] == "union_prefix":
+            it = items.get("Link")
+            vs_ = (it or {}).get("variants") or []
+            idents = [x.get("ident") for x in vs_]
+            if it is None or it["kind"] != "enum":
+                rep.count("union_prefix_not_an_enum")
+            elif len(set(idents)) != len(idents):
+                rep.violation("duplicate_ident", "union_prefix", {"names": m["names"], "idents": idents}, case=case, meta=m)
+                ok = False
+            else:
+                rep.nontrivial.add(("union_prefix", m["names"][0], cid))
         elif m["kind"] == "synth":
             it = items.get("T")
             members = (it or {}).get("fields") or []
